@@ -142,7 +142,10 @@ class Stats:
                 best["_count"] = cnt
                 self.failures[k] = best
         for k, v in o.extra.items():
-            if isinstance(v, (int, float)) and isinstance(self.extra.get(k, 0), (int, float)):
+            if k.startswith('max_'):
+                if k not in self.extra or v > self.extra[k]:
+                    self.extra[k] = v
+            elif isinstance(v, (int, float)) and isinstance(self.extra.get(k, 0), (int, float)):
                 self.extra[k] = self.extra.get(k, 0) + v
             else:
                 self.extra.setdefault(k, v)
@@ -424,7 +427,7 @@ def limit_memory(gb=6):
         pass
 
 
-class CaseTimeout(Exception):
+class CaseTimeout(BaseException):
     pass
 
 
